@@ -387,3 +387,164 @@ def _same_key(E):
     salt, k1 = libspec._ecdh_server(ip, libspec.mk_priv(ip, s), libspec.mk_pub(ip, c))
     k2 = libspec._ecdh_client(ip, libspec.mk_priv(ip, c), libspec.mk_pub(ip, s), salt)
     return {'same-16-byte-key': S.eq(k1, k2) & (S.len(k1) == 16)}
+
+
+# ------------------------------------------------------------------------------------------ the crypto wrappers themselves
+# The contracts above use the idealised library models (pyvc/libspec.py) in place of crypto.EllipticCurvePublicKey.verify etc.
+# Here the REAL wrapper bodies are verified against the `cryptography` objects they wrap (opaque library objects with their
+# documented behaviour): the wrapper adds nothing and swallows nothing - which is what the idealised models assume of it.
+def crypto_lib(ip, fn, args, kwargs):
+    if fn.name.startswith('cryptography.') or fn.name.startswith('crypto.'):
+        return Opaque('lib:' + fn.name.split('.')[-1], {'returns': None})
+    return NotImplemented
+
+
+def lib_verify(ip, fn, args, kwargs):
+    """cryptography's public_key.verify(signature, data, algorithm): raises InvalidSignature / TypeError / ValueError, or returns None"""
+    ip.state.ghost['lib_verify_calls'] = ip.state.ghost.get('lib_verify_calls', 0) + 1
+    ip.state.ghost['lib_verify_args'] = args
+    ip.state.ghost['lib_verify_ok'] = False
+    c = ip.ctx.choose(4)
+    if c == 1:
+        ip.ctx.raise_exc('InvalidSignature', 'signature mismatch')
+    if c == 2:
+        ip.ctx.raise_exc('TypeError', 'signature must be bytes')
+    if c == 3:
+        ip.ctx.raise_exc('ValueError', 'malformed signature')
+    ip.state.ghost['lib_verify_ok'] = True
+    return None
+
+
+@contract('crypto.EllipticCurvePublicKey.verify', props=['C02'])
+class _:
+    """returns normally ONLY when the library verified this signature over this data, once; every failure of the library
+    (mismatch, malformed or non-bytes signature) propagates as an exception - nothing is swallowed or turned into a return value"""
+    def setup(E):
+        key = E.plain_obj(tag='libkey', verify=E.opaque('libkey.verify', effect=lib_verify))
+        return dict(self=E.obj('crypto.EllipticCurvePublicKey', tag='self', key=key), signature=E.bytes('signature'), data=E.bytes('data'))
+    hooks = {'opaque': crypto_lib}
+    ensures = {
+        'success-only-if-the-library-verified-this-signature-over-this-data': lambda ghost, signature, data: (
+            ghost.__dict__.get('lib_verify_calls', 0) == 1 and ghost.lib_verify_ok is True
+            and ghost.lib_verify_args[0] is signature and ghost.lib_verify_args[1] is data),
+        'no-result-value': lambda result: result is None,
+    }
+    may_raise = ['InvalidSignature', 'TypeError', 'ValueError']
+    modifies = []
+
+
+LIB_EXCHANGE = z3.Function('lib_ecdh_exchange', z3.IntSort(), z3.IntSort(), BytesSort)     # library key ids -> shared secret
+
+
+def lib_key(E, name):
+    """a `cryptography` key object: exchange(algorithm, peer) returns the shared secret of the two key ids"""
+    kid = E.int(name)
+
+    def exchange(ip, fn, args, kwargs):
+        peer = args[1] if len(args) > 1 else None
+        pk = peer.attrs.get('kid') if isinstance(peer, Obj) else None
+        if pk is None:
+            ip.ctx.raise_exc('TypeError', 'peer key')
+        t = LIB_EXCHANGE(S.term(kid, 'int'), S.term(pk, 'int'))
+        ops.set_len(t, 32)
+        ip.ctx.assume(z3.Length(t) == 32)
+        return Sym(t, 'bytes')
+    return E.plain_obj(tag=name, kid=kid, exchange=E.opaque(name + '.exchange', effect=exchange))
+
+
+def hkdf_lib(ip, fn, args, kwargs):
+    """HKDF(algorithm=, length=, salt=, info=, backend=) -> object whose derive(secret) is recorded with the parameters"""
+    if fn.name.endswith('.HKDF'):
+        params = dict(kwargs)
+
+        def derive(ip2, fn2, a2, k2):
+            ip2.state.events.append(('hkdf.params', (params.get('length'), params.get('salt'), params.get('info'), a2[0]), {}))
+            t = ip2.ctx.fresh('derived', BytesSort)
+            ops.set_len_term(t, S.term(params.get('length'), 'int'))
+            return Sym(t, 'bytes')
+        return Obj(None, {'derive': Opaque('hkdf.derive', {'effect': derive})}, tag='hkdf')
+    return crypto_lib(ip, fn, args, kwargs)
+
+
+INFO = b'01-secp256r1-sha256-aesgcm128-server-client'
+
+
+def derived_as_agreed(events, own, peer, salt, result_key):
+    ev = [e for e in events if e[0] == 'hkdf.params']
+    if len(ev) != 1:
+        return False
+    length, s, info, secret = ev[0][1]
+    return (S.eq(length, 16) & (info == INFO) & S.eq(s, salt)
+            & S.bool(S.term(secret) == LIB_EXCHANGE(S.term(own.attrs['kid'], 'int'), S.term(peer.attrs['kid'], 'int')))
+            & (S.len(result_key) == 16))
+
+
+@contract('crypto.ecdh_server', props=['C02'])
+class _:
+    """the key is HKDF-SHA256(length 16, the fresh 16-byte salt that is returned, the agreed info string) of the library's ECDH
+    exchange between the server's key and the client's key - the same parameters ecdh_client uses"""
+    def setup(E):
+        priv = E.obj('crypto.EllipticCurvePrivateKey', tag='priv', key=lib_key(E, 'own_kid'))
+        pub = E.obj('crypto.EllipticCurvePublicKey', tag='pub', key=lib_key(E, 'peer_kid'))
+        return dict(server_private_key=priv, client_public_key=pub)
+    hooks = {'opaque': hkdf_lib}
+    ensures = {
+        'key-derivation-parameters': lambda events, server_private_key, client_public_key, result: derived_as_agreed(
+            events, server_private_key.key, client_public_key.key, result[0], result[1]) & (S.len(result[0]) == 16),
+    }
+
+
+@contract('crypto.ecdh_client', props=['C02'])
+class _:
+    """the key is HKDF-SHA256(length 16, the salt received, the agreed info string) of the library's ECDH exchange between the
+    client's key and the server's key"""
+    def setup(E):
+        priv = E.obj('crypto.EllipticCurvePrivateKey', tag='priv', key=lib_key(E, 'own_kid'))
+        pub = E.obj('crypto.EllipticCurvePublicKey', tag='pub', key=lib_key(E, 'peer_kid'))
+        return dict(client_private_key=priv, server_public_key=pub, salt=E.bytes('salt'))
+    hooks = {'opaque': hkdf_lib}
+    ensures = {
+        'key-derivation-parameters': lambda events, client_private_key, server_public_key, salt, result: derived_as_agreed(
+            events, client_private_key.key, server_public_key.key, salt, result),
+    }
+
+
+def aesgcm_lib(ip, fn, args, kwargs):
+    """AESGCM(key) -> object whose encrypt(nonce, data, associated_data) / decrypt(nonce, data, associated_data) calls are recorded"""
+    if fn.name.endswith('.AESGCM'):
+        key = args[0]
+
+        def op(which):
+            def eff(ip2, fn2, a2, k2):
+                ip2.state.events.append(('aesgcm.' + which + '.args', (key,) + tuple(a2), {}))
+                t = ip2.ctx.fresh(which + '_out', BytesSort)
+                ops.set_len_term(t, ip2.ctx.fresh(which + '_len', z3.IntSort()))
+                ip2.state.ghost['lib_out'] = Sym(t, 'bytes')
+                return ip2.state.ghost['lib_out']
+            return eff
+        return Obj(None, {'encrypt': Opaque('aesgcm.encrypt', {'effect': op('encrypt')}),
+                          'decrypt': Opaque('aesgcm.decrypt', {'effect': op('decrypt'), 'may_raise': True})}, tag='aesgcm')
+    return crypto_lib(ip, fn, args, kwargs)
+
+
+def gcm_call(events, which, key, iv, aad, data, result, ghost):
+    """the library is called once as AESGCM(key).<which>(nonce=iv, data=data, associated_data=aad) - in the library's argument
+    order, which differs from the wrapper's - and its result is returned unchanged"""
+    ev = [e for e in events if e[0] == 'aesgcm.%s.args' % which]
+    if len(ev) != 1 or len(ev[0][1]) != 4:
+        return False
+    k, n, d, a = ev[0][1]
+    return k is key and n is iv and d is data and a is aad and result is ghost.lib_out
+
+
+for _w in ('encrypt', 'decrypt'):
+    @contract('crypto.%s_gcm' % _w, props=['C01', 'C03'])
+    class _:
+        """the wrapper the idealised AEAD model stands for: one library call with key, nonce, data and associated data each in
+        its own place; the library's result (or its InvalidTag) passes through"""
+        def setup(E):
+            return dict(key=E.bytes('key', length=16), iv=E.bytes('iv', length=12), aad=E.bytes('aad'), data=E.bytes('data'))
+        hooks = {'opaque': aesgcm_lib}
+        ensures = {'library-called-with-each-argument-in-its-place': lambda events, key, iv, aad, data, result, ghost, _w=_w: gcm_call(
+            events, _w, key, iv, aad, data, result, ghost)}
+        may_raise = ['Exception'] if _w == 'decrypt' else []
